@@ -446,7 +446,7 @@ def replay_reject(dims, fwd, r2c, inplace, bf, bshape):
         try:
             w = fp.FFTWrapper(list(dims), ntransform=2, fwd=bool(fwd), r2c=bool(r2c), inplace=bool(inplace), batch_first=bool(bf))
             try:
-                w.call(np.zeros(bshape, dtype=np.complex128))
+                w.call(np.zeros(bshape, dtype=np.float64 if (r2c and fwd) else np.complex128))
             except ValueError:
                 return {"reproduced": False}
             except Exception as e:
@@ -457,8 +457,66 @@ def replay_reject(dims, fwd, r2c, inplace, bf, bshape):
     return replay
 
 
+def unit_input_arrays(ctx):
+    """'all input arrays': an input of the right shape but with another element type or with strides (a real array for a complex plan, a transposed or
+    sliced view) must not be handed to C by raw pointer — C reads shape-many elements of the plan's type from a contiguous buffer.  Decided by running the real
+    FFTWrapper.call natively against a recording stand-in of the library (bounded: a fixed set of plans and input kinds; labelled, not counted as proved)."""
+    fq = [PMOD + ":FFTWrapper.call"]
+    bound = "plans (2,3)/(4,) x {c2c fwd, r2c fwd, r2c bwd}; inputs: wrong element type, Fortran-ordered, strided view"
+    try:
+        fp = native_fft_module()
+    except Exception as e:
+        ctx.undecided("input arrays: native wrapper importable", "%s: %s" % (type(e).__name__, e), fq)
+        return
+    rec = []
+
+    class F(object):
+        def __init__(self, name):
+            self.name = name
+            self.restype = None
+
+        def __call__(self, *a):
+            rec.append((self.name, [getattr(x, "value", x) for x in a]))
+            return 0
+
+    class L(object):
+        def __getattr__(self, name):
+            return F(name)
+    fp.libfft = L()
+    n_checked = 0
+    for dims in ([2, 3], [4]):
+        for fwd, r2c in ((True, False), (True, True), (False, True)):
+            w = fp.FFTWrapper(list(dims), ntransform=2, fwd=fwd, r2c=r2c, inplace=False, batch_first=True)
+            want = np.float64 if (r2c and fwd) else np.complex128
+            shape = w.input_shape
+            base = (np.arange(int(np.prod(shape)) * 4, dtype=np.float64) + 1.0)
+            inputs = {}
+            if want is np.complex128:
+                inputs["real array for a complex plan"] = base[: int(np.prod(shape))].reshape(shape).copy()
+            good = base[: int(np.prod(shape))].reshape(shape).astype(want)
+            inputs["Fortran-ordered array"] = np.asfortranarray(good) if len(shape) > 1 else None
+            big = base[: int(np.prod(shape)) * 2].astype(want).reshape(shape[:-1] + (2 * shape[-1],))
+            inputs["strided view (every second element)"] = big[..., ::2]
+            for kind, x in inputs.items():
+                if x is None or (x.flags.c_contiguous and x.dtype == want):
+                    continue
+                del rec[:]
+                try:
+                    w.call(x)
+                    raised = False
+                except (ValueError, TypeError):
+                    raised = True
+                wr = [r for r in rec if r[0] == "write_fft_input"]
+                passed_raw = bool(wr) and wr[0][1][1] == x.ctypes.data
+                n_checked += 1
+                ctx.bounded("input arrays: dims=%s fwd=%s r2c=%s, %s: rejected, or converted to a contiguous array of the plan's element type before the C call" % (dims, fwd, r2c, kind),
+                            raised or not passed_raw, bound, "the caller's buffer (dtype %s, strides %s) was handed to C by raw pointer" % (x.dtype, x.strides),
+                            witness={"dims": dims, "fwd": fwd, "r2c": r2c, "kind": kind})
+    ctx.holds("input arrays: cases exercised", n_checked >= 6, "%d" % n_checked, fq)
+
+
 def units():
-    u = [("python", unit_python)]
+    u = [("python", unit_python), ("input-arrays", unit_input_arrays)]
     for ndim in (1, 2, 3, 4, 5):
         u.append(("plan/ndim%d" % ndim, unit_plan(ndim)))
         u.append(("copy-in/ndim%d" % ndim, unit_copy(ndim, "in")))
